@@ -5,13 +5,16 @@ MANIFEST = dict(
     text="Interface contracts of the LAPACK wrappers decided on their real bodies with LAPACK replaced by its documented extents (argument checks, "
          "writes of arbitrary values to exactly the documented output extents): every access to the packed column-major arrays is in bounds and "
          "the returned factors have shapes that multiply back to the input shape, for square and rectangular inputs in both orientations "
-         "(SVD), and for square inputs (LU inverse, eigen-decomposition).",
-    note="Bounded shapes (<= 4). M*M^-1 = I, Penrose conditions, A v = lambda v, U S V' = A, determinant identities and pivoting behaviour are numerical "
-         "and not decided; MatrixInversion (Gauss-Jordan), MatrixDeterminant, SolveLSE and OrdinaryLeastSquares are not under contract.",
-    technique="CBMC on the real LAPACK wrapper bodies with documented-extent stubs for dgesdd/dgetrf/dgetri/dgeev; bounded shapes")
+         "(SVD), and for square inputs (LU inverse, eigen-decomposition). The library's own solvers are decided on exact instances (every intermediate exactly representable, so the defining "
+         "equation must hold exactly for any correct algorithm): the Gauss-Jordan inverse satisfies M*M^-1 = I on scaled permutation matrices (zero leading entries / minors: row exchanges required) "
+         "and is finite on 2x2 matrices with a zero leading entry; SolveLSE satisfies A*x = b on 0/1 coefficient matrices of determinant +-1 (2x2, 3x3); OrdinaryLeastSquares returns the "
+         "least-squares coefficients on designs whose columns are scaled unit vectors (square with zero leading entries, and tall).",
+    note="Bounded shapes (<= 4). On general (not exactly representable) data M*M^-1 = I, the solvers' equations, Penrose conditions, A v = lambda v, U S V' = A and the determinant "
+         "identities are numerical and not decided; MatrixDeterminant is not under contract (no instance class is exact for every correct algorithm, e.g. an LU-based one).",
+    technique="CBMC on the real LAPACK wrapper bodies with documented-extent stubs for dgesdd/dgetrf/dgetri/dgeev; the library's own solvers on exact IEEE instances; bounded shapes")
 
-META = dict(decided="in-bounds packed-array access and factor shapes of SVDlapack (square + rectangular), MatrixLUInversion, EVectEval; LAPACK argument preconditions",
-            not_decided="all defining equations (numerical); Gauss-Jordan inverse, determinant, linear solvers",
+META = dict(decided="Gauss-Jordan inverse / SolveLSE / OrdinaryLeastSquares satisfy their defining equations on exact instances incl. zero leading entries and minors; in-bounds packed-array access and factor shapes of SVDlapack (square + rectangular), MatrixLUInversion, EVectEval; LAPACK argument preconditions",
+            not_decided="defining equations on general data (numerical); LAPACK-backed factorisations' values; determinant",
             trusted_base=["documented-extent LAPACK stubs in harness/C12/lapack.c"], assumptions=[])
 
 S = ["matrix.c", "vector.c", "memwrapper.c", "numeric.c"]
@@ -31,4 +34,20 @@ def jobs(tier):
     J.append(Job("MatrixInversion_pivot", "C12/lapack.c", entry="h_MatrixInversion_pivot", srcs=S, kind="bounded", defines={}, unwind=8, functions=["MatrixInversion"], timeout=900,
                  bound="2x2 matrices [[0,b],[c,d]], b,c in [1,2], d in [-1,1] (symbolic)",
                  clause="Gauss-Jordan inverse of a non-singular matrix with a zero leading entry is finite (row exchange needed)"))
+    for (dim, perms) in ([(2, (0, 1)), (3, (1, 3, 5))] if tier == "quick" else [(2, (0, 1)), (3, (0, 1, 2, 3, 4, 5))]):
+        for pi in perms:
+            J.append(Job("MatrixInversion_permutation@dim=%d,perm=%d" % (dim, pi), "C12/lapack.c", entry="h_MatrixInversion_permutation", srcs=S, kind="bounded",
+                         defines={"VC_DIM": dim, "VC_PERMIDX": pi}, unwind=2 * dim + 4, functions=["MatrixInversion"], timeout=900,
+                         bound="%dx%d scaled permutation matrix (pattern %d), entries +-1/2, +-1, +-2, +-4 symbolic (IEEE, exact instances)" % (dim, dim, pi),
+                         clause="Gauss-Jordan inverse: M * M^-1 == I exactly on scaled permutation matrices, including patterns with zero leading entries / zero leading minors"))
+    SA = S + ["algebra.c"]
+    for dim in (2, 3):
+        J.append(Job("SolveLSE@dim=%d" % dim, "C12/solvers.c", entry="h_SolveLSE", srcs=SA, kind="bounded", defines={"VC_DIM": dim}, unwind=dim + 4, functions=["SolveLSE"], timeout=900,
+                     bound="%dx%d coefficient matrices with entries 0/1 and determinant +-1, integer right-hand sides 0..3 (IEEE, exact instances)" % (dim, dim),
+                     clause="SolveLSE returns the solution of the stated system (A*x == b exactly), including zero leading entries and zero leading minors"))
+    for (rows, cols, rowmap) in ([(2, 2, "{1,0}"), (3, 2, "{2,0}")] if tier == "quick" else [(2, 2, "{1,0}"), (3, 2, "{2,0}"), (3, 3, "{1,2,0}"), (4, 2, "{3,1}")]):
+        J.append(Job("OLS_exact@%dx%d,%s" % (rows, cols, rowmap.replace(",", "")), "C12/solvers.c", entry="h_OLS_exact", srcs=SA, kind="bounded",
+                     defines={"VC_ROWS": rows, "VC_COLS": cols, "VC_ROWMAP": rowmap}, unwind=max(rows, 2 * cols) + 4, functions=["OrdinaryLeastSquares", "MatrixInversion"], timeout=900,
+                     bound="%dx%d design matrix, columns = scaled unit vectors on rows %s, scales +-1/2, +-1, +-2, responses 0..3 (IEEE, exact instances)" % (rows, cols, rowmap),
+                     clause="OrdinaryLeastSquares returns the least-squares solution (square designs with zero leading entries and tall designs)"))
     return J
